@@ -26,6 +26,15 @@ impl Driven for D {
          _ => panic!("verif harness: unknown relation {}", rel),
       }
    }
+   fn clear(&mut self, rel: &str) {
+      match rel {
+         "e_rn" => { self.0.e_rn = Default::default(); },
+         "f_rn" => { self.0.f_rn = Default::default(); },
+         "n_rn" => { self.0.n_rn = Default::default(); },
+         "r_rn" => { self.0.r_rn = Default::default(); },
+         _ => panic!("verif harness: unknown relation {}", rel),
+      }
+   }
    fn run(&mut self) { self.0.run(); }
    fn dump(&self) -> Value {
       let mut m: Vec<(String, Value)> = vec![];
